@@ -46,6 +46,14 @@ int main(int argc, char** argv)
 		// text streamed through operator<<(const char*) is data, not a printf format
 		{ TextFile t(P, File::WRITE); t << "a%%b%d%s 100%" << "\n" << "%"; t.close(); String got = TextFile(P).text(); if (got != "a%%b%d%s 100%\n%") { printf("REPRODUCED text streamed with << (const char*) containing '%%' comes back as %d bytes: %s\n", got.length(), *got); return 1; } }
 		{ ByteArray e; File f(P); { ByteArray full(300); f.put(full); f.close(); } f.put(e); f.close(); if (File(P).size() != 0) { printf("REPRODUCED put of 0 bytes over a 300-byte file leaves size() = %d\n", (int)File(P).size()); return 1; } }
+		// writing the empty text truncates / creates the file
+		{ { TextFile t(P); t.put("old content"); } { TextFile t(P); t.put(""); } if (File(P).size() != 0) { printf("REPRODUCED put(\"\") over an existing file leaves %d bytes\n", (int)File(P).size()); return 1; }
+		  remove(P); { TextFile t(P); t.write(""); } if (!File(P).exists() || File(P).size() != 0) { printf("REPRODUCED write(\"\") on a fresh path does not create an empty file\n"); return 1; } }
+		// UTF-16 files with characters of every plane
+		{ int cps[] = { 0x41, 0xE9, 0x20AC, 0xFFFD, 0x10000, 0x1F600, 0x20000, 0x2A6DF, 0xE0001, 0x10FFFF }; for (int be = 0; be < 2; be++) { std::string t = be ? "\xFE\xFF" : "\xFF\xFE", want; for (int cp : cps) { unsigned short u[2]; int nu = 1; if (cp >= 0x10000) { int v = cp - 0x10000; u[0] = 0xD800 + (v >> 10); u[1] = 0xDC00 + (v & 0x3ff); nu = 2; } else u[0] = (unsigned short)cp;
+				for (int q = 0; q < nu; q++) { char lo = char(u[q] & 255), hi = char(u[q] >> 8); if (be) { t.push_back(hi); t.push_back(lo); } else { t.push_back(lo); t.push_back(hi); } }
+				if (cp < 0x80) want.push_back(char(cp)); else if (cp < 0x800) { want.push_back(char(0xC0 | cp >> 6)); want.push_back(char(0x80 | (cp & 63))); } else if (cp < 0x10000) { want.push_back(char(0xE0 | cp >> 12)); want.push_back(char(0x80 | ((cp >> 6) & 63))); want.push_back(char(0x80 | (cp & 63))); } else { want.push_back(char(0xF0 | cp >> 18)); want.push_back(char(0x80 | ((cp >> 12) & 63))); want.push_back(char(0x80 | ((cp >> 6) & 63))); want.push_back(char(0x80 | (cp & 63))); } }
+			put(t); String got = TextFile(P).text(); if (std::string(*got, got.length()) != want) { printf("REPRODUCED text() of a UTF-16%s file with supplementary-plane characters differs from their UTF-8\n", be ? "BE" : "LE"); return 1; } } }
 		// byte-order marks: the same text in UTF-8
 		{ const char* u8 = "h\xC3\xA9llo \xE2\x82\xAC\nline2\nx"; std::string bom8 = std::string("\xEF\xBB\xBF") + u8; put(bom8);
 		  if (TextFile(P).text() != u8) { printf("REPRODUCED text() of a UTF-8 BOM file\n"); return 1; }
